@@ -49,7 +49,7 @@ def cases(tier, rng, dist):
                 op["reps"] = rng.randint(1, 3)
                 op["tests"] = [[rng.choice(["mean_diff", "anova"]), rng.randrange(ncol)] for _ in range(rng.randint(2, 3) if kind == "sim_npc" else rng.randint(1, 3))]
                 if kind == "sim_npc":
-                    op["comb"] = rng.choice(["fisher", "tippett", ["negwsum", ["1", "1", "1"]]])
+                    op["comb"] = "tippett"     # order-independent in binary64; sums/products can break exact ties (combiners are C07's subject)
                 else:
                     op["method"] = rng.choice(["minP", "maxT"]); op["alts"] = rng.choice(["greater", "two-sided"])
             ops.append(op)
@@ -217,7 +217,7 @@ def oracle(c, o):
             want = float(ttest_ind(a, b, equal_var=True)[0])
         else:
             m = float(np.mean(col)); want = sum((np.mean([col[i] for i in range(len(g)) if g[i] == k]) - m) ** 2 * g.count(k) for k in labs)
-        ok = (math.isnan(want) and math.isnan(r[1])) or abs(r[1] - want) <= 1e-9 * (1 + abs(want))
+        ok = (math.isnan(want) and math.isnan(r[1])) or r[1] == want or abs(r[1] - want) <= 1e-9 * (1 + abs(want))
         if not ok:
             return {"why": f"TestFunc.{c['fn']}(index={idx}) = {r[1]} but its definition gives {want} (groups {g}, column {col})", "cls": f"testfunc:{c['fn']}"}
         v = o["via_array"]
